@@ -106,6 +106,7 @@ def judge(case):
                         out.bad("parsed-off-changes-frames",
                                 f"{case['name']} validate={v} labelmsm={lm} q={q}: raw sequences differ")
     _int_flags(case, source, results, out)
+    _rawio(case, source, results, out)
     _interleaved(case, source, results, out)
     _seekable(case, source, results, out)
     out.states = len({e[1] if e[0] != "pair" else e[2] for _k, (_p, rec) in results.items()
@@ -130,6 +131,44 @@ def _int_flags(case, source, results, out):
             out.bad("flag-type-changes-behaviour",
                     f"{case['name']}: parsed={int(p)!r}, validate={bool(v)!r} behaves differently from "
                     f"parsed={p!r}, validate={v!r}")
+            break
+
+
+def _rawio(case, source, results, out):
+    """
+    The caller's own unbuffered stream (an io.RawIOBase): after every read() the position of THAT
+    stream must be the end of the frame just returned, whatever the options are.
+    """
+    from pyrtcm import RTCMReader  # pylint: disable=import-outside-toplevel
+    from mc.doubles import DribbleRaw  # pylint: disable=import-outside-toplevel
+
+    lib = H.lib_exceptions()
+    for key in CFGS:
+        v, p, lm, q = key
+        if lm != 1:
+            continue
+        raw_stream = DribbleRaw(source, 1 << 20)
+        rdr = RTCMReader(raw_stream, validate=v, quitonerror=q, parsed=p, labelmsm=lm,
+                         errorhandler=lambda e: None)
+        got = []
+        for _ in range(len(source) + 8):
+            try:
+                raw, msg = rdr.read()
+            except lib:
+                continue
+            except Exception as err:  # pylint: disable=broad-except
+                out.bad("reader-breaks", f"{case['name']} {key} (RawIOBase): {type(err).__name__}: {err}")
+                break
+            if raw is None and msg is None:
+                break
+            got.append((raw_stream.pos - len(raw), raw_stream.pos, raw))
+        alone = [(a, b, r) for a, b, r, _m in results[key][0]]
+        out.transitions += len(got) + 1
+        if got != alone:
+            out.bad("stream-kind-changes-frames",
+                    f"{case['name']}: reader(validate={v}, parsed={p}, quitonerror={q}) over the caller's "
+                    f"unbuffered RawIOBase stream leaves it at {[(a, b) for a, b, _ in got]} after each frame, "
+                    f"a plain stream at {[(a, b) for a, b, _ in alone]}")
             break
 
 
